@@ -193,6 +193,8 @@ type profile struct {
 	routes      []string
 	msgKinds    []string
 	mask        []int // kept components of each operation's output (nil: all)
+	pPlanned    int   // % of messages chosen to be valid for the state the history has reached (deep histories)
+	pInitLimit  int   // % of histories that begin with the authority raising the passthrough limit
 }
 
 var allMsgKinds = []string{"PauseProtocol", "UnpauseProtocol", "PauseCrossChains", "UnpauseCrossChains", "PauseAction", "UnpauseAction", "UpdateParams", "ReplaceDepositForBurn"}
@@ -202,7 +204,7 @@ var cleanRoutes = []string{"cctp", "hyp", "internal"}
 var profiles = map[string]profile{
 	// C01: receiver encodings, every route and recipient (the orbiter account itself included), prior deposits
 	"C01": {name: "C01", minOps: 2, maxOps: 6, wRecv: 70, wMsg: 8, wDeposit: 17, wQuery: 5, pOrbiter: 88, pFee: 50, pBadPayload: 30,
-		pFault: 0, pLie: 0, pWrongSign: 5, pPass: 10, pHuge: 8, pBadDenom: 8, routes: cleanRoutes, msgKinds: allMsgKinds, mask: []int{0, 2}},
+		pFault: 0, pLie: 0, pWrongSign: 5, pPass: 10, pHuge: 8, pBadDenom: 8, routes: cleanRoutes, msgKinds: allMsgKinds, mask: []int{0, 2}, pPlanned: 40, pInitLimit: 30},
 	// C02: amounts up to 2^256-1, fee lists, all routes, prior ledger states
 	"C02": {name: "C02", minOps: 1, maxOps: 5, wRecv: 80, wMsg: 2, wDeposit: 18, wQuery: 0, pOrbiter: 95, pFee: 70, pBadPayload: 8,
 		pFault: 0, pLie: 0, pWrongSign: 0, pPass: 0, pHuge: 25, pBadDenom: 4, routes: cleanRoutes, msgKinds: []string{"UpdateParams"}, mask: []int{0, 2, 3}},
@@ -211,26 +213,27 @@ var profiles = map[string]profile{
 		pFault: 55, pLie: 8, pWrongSign: 0, pPass: 0, pHuge: 6, pBadDenom: 3, routes: cleanRoutes, msgKinds: []string{"UpdateParams"}, mask: []int{0, 1, 2, 4}},
 	// C05: the recorded requests
 	"C05": {name: "C05", minOps: 1, maxOps: 4, wRecv: 85, wMsg: 15, wDeposit: 0, wQuery: 0, pOrbiter: 97, pFee: 50, pBadPayload: 30,
-		pFault: 0, pLie: 0, pWrongSign: 15, pPass: 30, pHuge: 5, pBadDenom: 2, routes: cleanRoutes, msgKinds: []string{"ReplaceDepositForBurn", "UpdateParams", "UpdateParams"}, mask: []int{0, 1}},
+		pFault: 0, pLie: 0, pWrongSign: 15, pPass: 30, pHuge: 5, pBadDenom: 2, routes: cleanRoutes, msgKinds: []string{"ReplaceDepositForBurn", "UpdateParams", "UpdateParams"}, mask: []int{0, 1}, pInitLimit: 50},
 	// C08: pause / unpause histories interleaved with probes to every destination
 	"C08": {name: "C08", minOps: 4, maxOps: 14, wRecv: 40, wMsg: 40, wDeposit: 0, wQuery: 20, pOrbiter: 96, pFee: 20, pBadPayload: 3,
 		pFault: 0, pLie: 0, pWrongSign: 10, pPass: 0, pHuge: 0, pBadDenom: 0, routes: cleanRoutes,
-		msgKinds: []string{"PauseProtocol", "UnpauseProtocol", "PauseCrossChains", "UnpauseCrossChains", "PauseCrossChains", "UnpauseCrossChains"}, mask: []int{0, 1, 4}},
+		msgKinds: []string{"PauseProtocol", "UnpauseProtocol", "PauseCrossChains", "UnpauseCrossChains", "PauseCrossChains", "UnpauseCrossChains"}, mask: []int{0, 1, 4}, pPlanned: 70},
 	"C09": {name: "C09", minOps: 3, maxOps: 10, wRecv: 45, wMsg: 35, wDeposit: 0, wQuery: 20, pOrbiter: 96, pFee: 60, pBadPayload: 3,
 		pFault: 0, pLie: 0, pWrongSign: 10, pPass: 0, pHuge: 0, pBadDenom: 0, routes: cleanRoutes,
-		msgKinds: []string{"PauseAction", "UnpauseAction", "PauseAction", "UnpauseAction", "PauseProtocol"}, mask: []int{0, 1, 2, 4}},
+		msgKinds: []string{"PauseAction", "UnpauseAction", "PauseAction", "UnpauseAction", "PauseProtocol"}, mask: []int{0, 1, 2, 4}, pPlanned: 75},
 	// C10: every message kind, every kind of signer
 	"C10": {name: "C10", minOps: 3, maxOps: 10, wRecv: 10, wMsg: 80, wDeposit: 0, wQuery: 10, pOrbiter: 90, pFee: 30, pBadPayload: 0,
-		pFault: 0, pLie: 0, pWrongSign: 55, pPass: 0, pHuge: 0, pBadDenom: 0, routes: cleanRoutes, msgKinds: allMsgKinds, mask: []int{0, 1, 4}},
+		pFault: 0, pLie: 0, pWrongSign: 50, pPass: 0, pHuge: 0, pBadDenom: 0, routes: cleanRoutes, msgKinds: allMsgKinds, mask: []int{0, 1, 4}, pPlanned: 75},
 	// C11: deposits onto the orbiter account crossed with transfers; each packet also runs on a twin branch with an emptied account
 	"C11": {name: "C11", minOps: 2, maxOps: 7, wRecv: 55, wMsg: 5, wDeposit: 40, wQuery: 0, pOrbiter: 95, pFee: 50, pBadPayload: 10,
-		pFault: 0, pLie: 0, pWrongSign: 0, pPass: 25, pHuge: 5, pBadDenom: 3, routes: cleanRoutes, msgKinds: []string{"UpdateParams"}, mask: []int{0, 1, 2, 4}},
+		pFault: 0, pLie: 0, pWrongSign: 0, pPass: 30, pHuge: 5, pBadDenom: 3, routes: cleanRoutes, msgKinds: []string{"UpdateParams"}, mask: []int{0, 1, 2, 4},
+		pPlanned: 80, pInitLimit: 50},
 	// C12: long mixed histories
 	"C12": {name: "C12", minOps: 6, maxOps: 24, wRecv: 80, wMsg: 10, wDeposit: 5, wQuery: 5, pOrbiter: 90, pFee: 50, pBadPayload: 12,
-		pFault: 5, pLie: 0, pWrongSign: 10, pPass: 5, pHuge: 4, pBadDenom: 5, routes: cleanRoutes, msgKinds: allMsgKinds, mask: []int{0, 4}},
+		pFault: 5, pLie: 0, pWrongSign: 10, pPass: 5, pHuge: 4, pBadDenom: 5, routes: cleanRoutes, msgKinds: allMsgKinds, mask: []int{0, 4}, pPlanned: 50, pInitLimit: 30},
 	// C18: passthrough lengths around the limit in force, histories of parameter updates
 	"C18": {name: "C18", minOps: 3, maxOps: 10, wRecv: 55, wMsg: 35, wDeposit: 0, wQuery: 10, pOrbiter: 97, pFee: 20, pBadPayload: 2,
-		pFault: 0, pLie: 0, pWrongSign: 20, pPass: 85, pHuge: 0, pBadDenom: 0, routes: cleanRoutes, msgKinds: []string{"UpdateParams"}, mask: []int{0, 1, 4}},
+		pFault: 0, pLie: 0, pWrongSign: 20, pPass: 85, pHuge: 0, pBadDenom: 0, routes: cleanRoutes, msgKinds: []string{"UpdateParams"}, mask: []int{0, 1, 4}, pPlanned: 50},
 	// C14: the malformed stream through the whole stack
 	"C14": {name: "C14", minOps: 1, maxOps: 4, wRecv: 90, wMsg: 5, wDeposit: 5, wQuery: 0, pOrbiter: 85, pFee: 60, pBadPayload: 70,
 		pFault: 0, pLie: 0, pWrongSign: 30, pPass: 20, pHuge: 20, pBadDenom: 25, routes: cleanRoutes, msgKinds: allMsgKinds, mask: []int{0}},
@@ -239,6 +242,10 @@ var profiles = map[string]profile{
 }
 
 type gen struct {
+	// abstract state the generator assumes the history has reached (authority messages taken to succeed)
+	absProto map[string]bool
+	absCC    map[string]bool
+	absAct   map[string]bool
 	r   *rng.R
 	w   *world.W
 	a   actors
@@ -514,8 +521,123 @@ func (g *gen) genPacket() (world.Packet, pktInfo) {
 	return p, info
 }
 
+var ccPool = map[string][]string{"PROTOCOL_CCTP": {"0", "1", "2", "3", "5", "6", "7"}, "PROTOCOL_HYPERLANE": {"1", "2", "77"},
+	"PROTOCOL_INTERNAL": {"noble"}, "PROTOCOL_IBC": {"channel-0", "channel-1"}}
+
+func (g *gen) hasKind(k string) bool {
+	for _, x := range g.p.msgKinds {
+		if x == k {
+			return true
+		}
+	}
+	return false
+}
+
+// plannedMsg picks a message that is valid in the abstract state (so that it succeeds when the
+// authority signs it) and moves the abstract state.
+func (g *gen) plannedMsg() (world.Msg, bool) {
+	r := g.r
+	if g.absProto == nil {
+		g.absProto, g.absCC, g.absAct = map[string]bool{}, map[string]bool{}, map[string]bool{}
+	}
+	var cands []world.Msg
+	for _, pn := range protoNames {
+		if g.absProto[pn] {
+			if g.hasKind("UnpauseProtocol") {
+				cands = append(cands, world.Msg{Kind: "UnpauseProtocol", ID: pn})
+			}
+			if g.hasKind("UnpauseCrossChains") {
+				cands = append(cands, world.Msg{Kind: "UnpauseCrossChains", ID: pn})
+			}
+		} else {
+			if g.hasKind("PauseProtocol") {
+				cands = append(cands, world.Msg{Kind: "PauseProtocol", ID: pn})
+			}
+			if g.hasKind("PauseCrossChains") && r.Chance(30) {
+				cands = append(cands, world.Msg{Kind: "PauseCrossChains", ID: pn})
+			}
+		}
+		var on, off []string
+		for _, c := range ccPool[pn] {
+			if g.absCC[pn+"|"+c] {
+				on = append(on, c)
+			} else {
+				off = append(off, c)
+			}
+		}
+		pick := func(xs []string) []string {
+			n := 1 + r.Intn(len(xs))
+			if n > 3 {
+				n = 3
+			}
+			perm := append([]string{}, xs...)
+			for i := range perm {
+				j := i + r.Intn(len(perm)-i)
+				perm[i], perm[j] = perm[j], perm[i]
+			}
+			return perm[:n]
+		}
+		if len(off) > 0 && g.hasKind("PauseCrossChains") {
+			cands = append(cands, world.Msg{Kind: "PauseCrossChains", ID: pn, IDs: pick(off)})
+		}
+		if len(on) > 0 && g.hasKind("UnpauseCrossChains") {
+			cands = append(cands, world.Msg{Kind: "UnpauseCrossChains", ID: pn, IDs: pick(on)})
+		}
+	}
+	for _, an := range []string{"ACTION_FEE", "ACTION_SWAP"} {
+		if g.absAct[an] && g.hasKind("UnpauseAction") {
+			cands = append(cands, world.Msg{Kind: "UnpauseAction", ID: an})
+		}
+		if !g.absAct[an] && g.hasKind("PauseAction") {
+			cands = append(cands, world.Msg{Kind: "PauseAction", ID: an})
+		}
+	}
+	if g.hasKind("UpdateParams") {
+		cands = append(cands, world.Msg{Kind: "UpdateParams", Max: rng.Pick(r, []uint32{0, 1, 16, 17, 64, 255, 65536})})
+	}
+	if len(cands) == 0 {
+		return world.Msg{}, false
+	}
+	m := cands[r.Intn(len(cands))]
+	m.Signer = sim.Authority
+	if r.Chance(g.p.pWrongSign) {
+		m.Signer = rng.Pick(r, []string{g.a.users[0].Bech, sim.OrbiterAddr().String(), "", "noble1invalid", world.ModAddr("gov").String()})
+		return m, true
+	}
+	switch m.Kind {
+	case "PauseProtocol":
+		g.absProto[m.ID] = true
+	case "UnpauseProtocol":
+		delete(g.absProto, m.ID)
+	case "PauseCrossChains":
+		if len(m.IDs) == 0 {
+			g.absProto[m.ID] = true
+		}
+		for _, c := range m.IDs {
+			g.absCC[m.ID+"|"+c] = true
+		}
+	case "UnpauseCrossChains":
+		if len(m.IDs) == 0 {
+			delete(g.absProto, m.ID)
+		}
+		for _, c := range m.IDs {
+			delete(g.absCC, m.ID+"|"+c)
+		}
+	case "PauseAction":
+		g.absAct[m.ID] = true
+	case "UnpauseAction":
+		delete(g.absAct, m.ID)
+	}
+	return m, true
+}
+
 func (g *gen) genMsg() world.Msg {
 	r := g.r
+	if r.Chance(g.p.pPlanned) {
+		if m, ok := g.plannedMsg(); ok {
+			return m
+		}
+	}
 	m := world.Msg{Kind: rng.Pick(r, g.p.msgKinds), Signer: sim.Authority}
 	if r.Chance(g.p.pWrongSign) {
 		m.Signer = rng.Pick(r, []string{g.a.users[0].Bech, sim.OrbiterAddr().String(), "", "noble1invalid", strings.ToUpper(sim.Authority), world.ModAddr("gov").String()})
